@@ -356,6 +356,19 @@ def run_property(pid, tier="quick", seed=0, jobs=None, extra=None):
             reports = []
         extra.setdefault("bounded", []).extend(reports)
         for rep in reports:
+            kf = rep.get("known_finding")
+            if kf and kf.get("hits"):
+                # a recorded finding observed by a bounded probe: it must be listed in known_findings.json for THIS property
+                listed = {f["id"]: f for f in load_known_findings().get("findings", []) if f["property"] == pid}
+                if kf["id"] in listed:
+                    ok, outtxt = run_witness(listed[kf["id"]]["witness"])
+                    if ok:
+                        extra.setdefault("known_lines", []).append("KNOWN-FINDING: property=%s %s [%s; observed by the bounded probe on %d document(s), witness re-run natively]" % (pid, listed[kf["id"]]["text"], kf["id"], kf["hits"]))
+                    else:
+                        extra.setdefault("engine", []).append("known finding %s: still observed by the probe but the recorded witness no longer fails natively (%s)" % (kf["id"], outtxt[-200:]))
+                else:
+                    rep["n_failures"] = rep.get("n_failures", 0) + kf["hits"]
+                    rep.setdefault("failures", []).append({"what": "unlisted finding %s" % kf["id"], "example": kf.get("example")})
             if rep.get("n_failures"):
                 os.makedirs(os.path.join(VERIF, "replays", pid), exist_ok=True)
                 rp = os.path.join(VERIF, "replays", pid, "bounded_" + re.sub(r"[^A-Za-z0-9_]+", "_", rep["function"].split(":")[-1].split(" (")[0]).strip("_") + ".json")
